@@ -3,12 +3,15 @@
 (* rewriting or not.  One behaviour = one case.                              *)
 EXTENDS TypeFollow, Json, IOUtils
 CONSTANTS Contexts
-Cases == {cs2 \in {[pl |-> pl, ctx |-> cx, two |-> tw, rw |-> rw, alias |-> al] :
+(* inh: the receiver's class INHERITS the called method / property from a base class; the class-level callback is *)
+(* registered on the derived class (the class the query uses), the method-level one where the method is defined  *)
+Cases == {cs2 \in {[pl |-> pl, ctx |-> cx, two |-> tw, rw |-> rw, alias |-> al, inh |-> ih] :
                        pl \in {"class", "method", "both", "func", "param"}, cx \in Contexts,
-                       tw \in BOOLEAN, rw \in BOOLEAN, al \in BOOLEAN} :
+                       tw \in BOOLEAN, rw \in BOOLEAN, al \in BOOLEAN, ih \in BOOLEAN} :
              (* the chained context has two sites by construction and needs methods *)
              /\ cs2.ctx = ChainCtx => (cs2.two /\ cs2.pl \in {"class", "method", "both"} /\ ~cs2.alias)
-             /\ cs2.alias => cs2.two}
+             /\ cs2.alias => cs2.two
+             /\ cs2.inh => (cs2.pl # "func" /\ cs2.ctx \notin {ChainCtx, 9})}
 VARIABLE cs
 Init == cs \in Cases
 Next == UNCHANGED cs
